@@ -370,6 +370,8 @@ impl<'a> G<'a>
             let t = self.any_trig();
             if self.used.insert((inst, t)) { v.push(t); }
         }
+        // now and then one bundle names the same trigger twice (two registrations of one reactor through one token)
+        if !v.is_empty() && v.len() < 6 && self.r.chance(7) { let t = *self.r.pick(&v.clone()); v.push(t); }
         v
     }
 
